@@ -71,6 +71,16 @@ class C06(Hist1Prop):
             kind = rng.choice(["mul", "rmul", "imul", "div", "idiv", "mul_div"])
             c, kd = pick_scalar(rng, exact, divide=kind in ("div", "idiv", "mul_div"))
             steps.append({"t": kind, "c": c, "k": kd})
+        if exact and init.get("dtype", "int64") in ("int64", "float64", None) and rng.random() < 0.2:
+            # a numpy scalar of a narrow type whose SQUARE does not fit that type (300 as int16 / float16, 70000 as int32,
+            # 256 as float16): contents scale by c and squared errors by c*c all the same
+            if rng.random() < 0.6:
+                c, kd = rng.choice([("300", "int16"), ("200", "int16"), ("70000", "int32"), ("300", "float16"), ("256", "float16")])
+                t = rng.choice(["mul", "rmul", "imul"])
+            else:       # divisors stay powers of two (exact quotients)
+                c, kd = rng.choice([("256", "float16"), ("16384", "int16"), ("65536", "int32")])
+                t = rng.choice(["div", "idiv", "mul_div"])
+            steps[rng.randrange(len(steps))] = {"t": t, "c": c, "k": kd}
         if rng.random() < 0.5:
             steps.append({"t": "normalize", "percent": rng.random() < 0.4, "inplace": rng.random() < 0.4})
         bad = rng.choice(["mul_hist", "imul_hist", "div_hist", "idiv_hist", "rdiv", "mul_array", "div_array", "imul_array",
@@ -350,6 +360,8 @@ class C06(Hist1Prop):
         def eq(a, b, what):
             if a is None or b is None:
                 return a is None and b is None
+            if any(isinstance(t, str) and t.lstrip("-") in ("inf", "nan") for t in (a, b)):
+                return a == b          # a non-finite content or error never equals the finite expected value
             x, y = Fraction(a), Fraction(b)
             if exact and what != "norm":
                 return x == y
@@ -361,6 +373,12 @@ class C06(Hist1Prop):
             before = outs[k - 1]["regs"]
             after = outs[k]["regs"]
             if op["h"] >= len(before) or before[op["h"]] is None:
+                return fails[:6]
+            b0 = before[op["h"]]
+            if any(t is None or (isinstance(t, str) and t.lstrip("-") in ("inf", "nan")) for t in list(b0["freq"]) + list(b0["err2"])):
+                if not fails:
+                    fails.append(f"non_finite: register {op['h']} holds a non-finite content or squared error before step {k} "
+                                 f"although every factor and content is finite")
                 return fails[:6]
             if op.get("expect_refused") or op["op"] == "invalid":
                 src_snap = before[op["h"]]
